@@ -403,7 +403,19 @@ def rule_r9(repo):
         it = WalkInterp(repo, 'Decoder')
         a = fold_init(repo, comp, 2, interp=it)
         b = fold_init(repo, comp, 2, interp=it)
-        for sa_, sb in zip(a, b):
+        pairs = list(zip(a, b))
+        if not comp:
+            # ... and after each has been switched to its second subset
+            switch = repo.own_method('CoderState', 'switch_subset_context')
+            a2 = fold_init(repo, comp, 2, interp=it)
+            b2 = fold_init(repo, comp, 2, interp=it)
+            for x, y in zip(a2, b2):
+                rx = [r for r in it.run_function(switch, lambda: {'self': x, switch.params[1]: 1}, self_class='CoderState') if r.ok]
+                ry = [r for r in it.run_function(switch, lambda: {'self': y, switch.params[1]: 1}, self_class='CoderState') if r.ok]
+                if not rx or not ry:
+                    raise AnalysisError('switch_subset_context could not be folded')
+                pairs.append((rx[0].locals['self'], ry[0].locals['self']))
+        for sa_, sb in pairs:
             for attr in sorted(sa_.fields):
                 va, vb = sa_.fields[attr], sb.fields.get(attr)
                 rr.instance('CoderState.%s (%s)' % (attr, 'compressed' if comp else 'uncompressed'))
@@ -424,10 +436,10 @@ def rule_r9(repo):
 def _param_mutations(fi, pname):
     """Statements of `fi` that change the object bound to parameter `pname` in place, and calls that pass it on."""
     muts, passes = [], []
-    rebound = False
+    rebound = None      # line of the first statement that binds the name to another object (e.g. a copy)
     for n in ast.walk(fi.node):
         if isinstance(n, ast.Assign) and any(isinstance(t, ast.Name) and t.id == pname for t in n.targets):
-            rebound = True
+            rebound = n.lineno if rebound is None else min(rebound, n.lineno)
     for n in ast.walk(fi.node):
         tg = []
         if isinstance(n, ast.Assign):
@@ -451,6 +463,10 @@ def _param_mutations(fi, pname):
             for k in n.keywords:
                 if isinstance(k.value, ast.Name) and k.value.id == pname:
                     passes.append((n, None, k.arg))
+    if rebound is not None:
+        # after `p = dict(p)` the name no longer denotes the caller's object (straight-line approximation by line order)
+        muts = [m for m in muts if m.lineno < rebound]
+        passes = [x for x in passes if x[0].lineno <= rebound]
     return muts, passes, rebound
 
 
